@@ -236,6 +236,14 @@ def run(tier):
                 continue
             cases.append({"sql": sql, "dialect": d, "want": []})
             meta.append((key, st, exp))
+            # statements that name their target columns themselves (MERGE lists, INSERT column list), once more with a catalog that knows the
+            # target under ANOTHER column order plus a column the statement does not mention: the explicit names still decide
+            if st.kind in ("merge", "insert_cols") and d == ds[0] and exp["write"] and not exp["notes"]:
+                named = [a for a, _ in (st.extra.get("insert") or []) + (st.extra.get("update") or [])] if st.kind == "merge" else list(st.cols or [])
+                if named:
+                    cat = {exp["write"][0]: sorted(set(named), reverse=True) + ["zz_extra"]}
+                    cases.append({"sql": sql, "dialect": d, "want": [], "metadata": cat, "provider": "dummy"})
+                    meta.append((key, st, dict(exp, tags=list(exp["tags"]) + ["catalog.target_known_in_another_order"])))
     run_.need("pair_sets_compared")
     run_.need("pairs_matched")
     with Pool() as pool:
@@ -246,7 +254,7 @@ def run(tier):
     skipped_notes = {}
     ansi_ok = set()
     for case, (key, st, exp), (s, r) in zip(cases, meta, recs):
-        b = {"sql": case["sql"], "dialect": case["dialect"], "tags": exp["tags"]}
+        b = {"sql": case["sql"], "dialect": case["dialect"], "tags": exp["tags"], **({"metadata": case["metadata"]} if case.get("metadata") else {})}
         if not run_.pool_status(s, r, b):
             run_.case()
             continue
@@ -267,7 +275,7 @@ def run(tier):
             continue  # outside what the reference model decides
         E = {tuple(p) for p in exp["column_pairs"]}
         O = {tuple(p) for p in r["column_pairs"]}
-        run_.case(evidence.sha((case["sql"], d)), nontrivial=bool(E),
+        run_.case(evidence.sha((case["sql"], d, case.get("metadata"))), nontrivial=bool(E),
                   sample={"sql": case["sql"], "dialect": d, "expected_pairs": sorted(E)[:6]} if len(run_.samples) < 5 and len(E) > 3 else None)
         run_.observe("pair_sets_compared")
         for t in exp["tags"]:
